@@ -6,6 +6,9 @@ package main
 //   of a net.Dialer / net.ListenConfig for every ip network the code dials or listens on; the options are read back
 //   with getsockopt right after the callback ran, on the very socket.
 //   case:   <id> net=<tcp4|tcp6|udp4|udp6> role=<dial|listen> mark=<n> dev=<name|-> rp=<0|1> rcv=<n> snd=<n> ut=<ms>
+//           role=rlisten: the listener socket as (*router).listen opens it (router.VerifC17Listen); role=rupstream: the
+//           socket of a tcp upstream built by the real initUpstream (found among the process's fds by its peer port):
+//           both carry the TCP_USER_TIMEOUT constant of the code (5000 ms), whatever ut= says
 //   result: ctl=ok nw=<network the callback received> mark=<n> dev=<name|-> rp=<0|1> rcv=<n|-> snd=<n|-> ut=<ms|->  |  ctl=err
 //           (rcv/snd: half of the read-back value — the kernel doubles it — when configured, "-" otherwise)
 
@@ -46,6 +49,9 @@ func sockOptsCase(f map[string]string) string {
 	}
 	if f["dev"] != "-" {
 		opt.SO_BINDTODEVICE = f["dev"]
+	}
+	if f["role"] == "rlisten" || f["role"] == "rupstream" {
+		return sockOptsRouterCase(f, opt)
 	}
 	real := router.VerifC17ControlSocket(opt, uint(atoi("ut")))
 	seenNet, readback := "", ""
@@ -238,4 +244,93 @@ func dohRedirCase(f map[string]string) string {
 	}
 	return fmt.Sprintf("new=ok x=%s reqs=%d conns=%d extra=%d hosts=%s snis=%s", x, len(seen.hosts), conns, tcp-1,
 		distinct(seen.hosts), distinct(seen.snis))
+}
+
+func sockReadback(fd int, opt router.SocketConfig, tcp bool) string {
+	mark, _ := unix.GetsockoptInt(fd, unix.SOL_SOCKET, unix.SO_MARK)
+	dev, _ := unix.GetsockoptString(fd, unix.SOL_SOCKET, unix.SO_BINDTODEVICE)
+	rp, _ := unix.GetsockoptInt(fd, unix.SOL_SOCKET, unix.SO_REUSEPORT)
+	rcv, _ := unix.GetsockoptInt(fd, unix.SOL_SOCKET, unix.SO_RCVBUF)
+	snd, _ := unix.GetsockoptInt(fd, unix.SOL_SOCKET, unix.SO_SNDBUF)
+	dev = strings.TrimRight(dev, "\x00")
+	if dev == "" {
+		dev = "-"
+	}
+	half := func(configured, v int) string {
+		if configured <= 0 {
+			return "-"
+		}
+		return strconv.Itoa(v / 2)
+	}
+	ut := "-"
+	if tcp {
+		if v, err := unix.GetsockoptInt(fd, unix.IPPROTO_TCP, unix.TCP_USER_TIMEOUT); err == nil && v != 0 {
+			ut = strconv.Itoa(v)
+		}
+	}
+	return fmt.Sprintf("mark=%d dev=%s rp=%d rcv=%s snd=%s ut=%s", mark, dev, rp, half(opt.SO_RCVBUF, rcv), half(opt.SO_SNDBUF, snd), ut)
+}
+
+func sockOptsRouterCase(f map[string]string, opt router.SocketConfig) string {
+	nw := f["net"]
+	ip := "127.0.0.1"
+	if strings.HasSuffix(nw, "6") {
+		ip = "::1"
+	}
+	if f["role"] == "rlisten" {
+		l, err := router.VerifC17Listen(&router.ServerConfig{Tag: "in", Protocol: "tcp", Listen: net.JoinHostPort(ip, "0"), Socket: opt})
+		if err != nil {
+			return "ctl=err"
+		}
+		defer l.Close()
+		tl, ok := l.(*net.TCPListener)
+		if !ok {
+			return "HARNESS-ERROR not a tcp listener"
+		}
+		rc, err := tl.SyscallConn()
+		if err != nil {
+			return "HARNESS-ERROR " + err.Error()
+		}
+		out := ""
+		rc.Control(func(fd uintptr) { out = sockReadback(int(fd), opt, true) })
+		return "ctl=ok nw=" + nw + " " + out
+	}
+	// rupstream: a tcp upstream through the real initUpstream, one exchange, its (idle) connection stays open
+	seen := &c17Seen{}
+	addr, closeSrv, err := c17StartServer("tcp", net.JoinHostPort(ip, "0"), nil, seen, nil)
+	if err != nil {
+		return "HARNESS-ERROR listen " + err.Error()
+	}
+	defer closeSrv()
+	_, port, _ := net.SplitHostPort(addr)
+	pn, _ := strconv.Atoi(port)
+	u, err := router.VerifC17InitUpstream(&router.UpstreamConfig{Tag: "u", Addr: "tcp://" + addr, Socket: opt})
+	if err != nil || u == nil {
+		return "ctl=err"
+	}
+	defer u.Close()
+	q := hx.BuildQuery(0x17b0, []byte("\x04c17k\x04test"), 1, 1, true)
+	ctx, cancel := context.WithTimeout(context.Background(), 3*time.Second)
+	na, xerr := u.Exchange(ctx, q)
+	cancel()
+	if xerr != nil || na != 1 {
+		return "ctl=err"
+	}
+	for fd := 3; fd < 4096; fd++ {
+		sa, err := unix.Getpeername(fd)
+		if err != nil {
+			continue
+		}
+		p := -1
+		switch a := sa.(type) {
+		case *unix.SockaddrInet4:
+			p = a.Port
+		case *unix.SockaddrInet6:
+			p = a.Port
+		}
+		if p == pn {
+			return "ctl=ok nw=" + nw + " " + sockReadback(fd, opt, true)
+		}
+	}
+	return "HARNESS-ERROR the upstream's socket was not found"
 }
